@@ -490,12 +490,14 @@ def accumulation(chk, prog, cfg):
     def empty_builder(v, adt, keep=()):
         if not symrun.is_struct(v, B + adt):
             return False
-        for n, x in zip(v[4], v[2]):
+        def empty(x, n):
             if n in keep:
-                continue
-            if not (absint.opt_view(x) == ("None",) or x == symrun.EMPTY_VEC or symrun.is_struct(x, "core::marker::PhantomData")):
-                return False
-        return True
+                return True
+            if absint.opt_view(x) == ("None",) or x == symrun.EMPTY_VEC or symrun.is_struct(x, "core::marker::PhantomData"):
+                return True
+            # a private struct holding the slots: empty when all its members are
+            return symrun.is_struct(x) and len(x) > 5 and isinstance(x[5], str) and x[5].startswith(B) and all(empty(y, m) for m, y in zip(x[4], x[2]))
+        return all(empty(x, n) for n, x in zip(v[4], v[2]))
 
     def built_variant(v):
         return _eq_fields(v, TY + "variant::Variant", {"name": S("built.name"), "fields": S("built.fields"), "index": S("built.index!"), "docs": S("built.docs")})
